@@ -172,13 +172,15 @@ static inline int xh_is_sqrt(unsigned x, unsigned r)
 
 #ifdef XV_CASE_EX
 #define XH_CASE __CPROVER_requires(XH_EXP(x.data_) == XV_CASE_EX)
+#elif defined(XV_CASE_ZERO_OR_SPECIAL)
+/* quick-tier slice of fma: at least one operand is a zero, an infinity or a NaN (the special-value ladder and signed-zero rules) */
+#define XH_SPEC(h) (XH_ISZERO(h) || XH_EXP(h) == 31)
+#define XH_CASE __CPROVER_requires(XH_SPEC(x.data_) || XH_SPEC(y.data_) || XH_SPEC(z.data_))
 #else
 #define XH_CASE
 #endif
 #define XV_CONTRACT_half_float__op_add__half_half XH_CASE __CPROVER_ensures(XH_SAME(RVD, xh_spec_add(x.data_, y.data_))) __CPROVER_assigns()
 #define XV_CONTRACT_half_float__op_sub__half_half XH_CASE __CPROVER_ensures(XH_SAME(RVD, xh_spec_sub(x.data_, y.data_))) __CPROVER_assigns()
-#define XV_CONTRACT_half_float__op_mul__half_half XH_CASE __CPROVER_ensures(XH_SAME(RVD, xh_spec_mul(x.data_, y.data_))) __CPROVER_assigns()
-#define XV_CONTRACT_half_float__op_div__half_half XH_CASE __CPROVER_ensures(XH_SAME(RVD, xh_spec_div(x.data_, y.data_))) __CPROVER_assigns()
 /* sqrt: Annex F specials, otherwise the correctly rounded root */
 #define XV_CONTRACT_half_float__sqrt__half \
   __CPROVER_ensures(XH_ISNAN(arg.data_) ==> XH_ISNAN(RVD)) \
@@ -215,3 +217,103 @@ static inline int xh_is_sqrt(unsigned x, unsigned r)
 #define XV_CONTRACT_hhash__op_call__half_c \
   __CPROVER_requires(__CPROVER_is_fresh(self, sizeof(*self))) \
   __CPROVER_ensures(RV == XV_STDHASH((unsigned long)(unsigned short)(arg.data_ == 0x8000u ? 0 : arg.data_))) __CPROVER_assigns()
+
+/* ---- multiplication and division with * / % as uninterpreted functions (unit half_uf) ----
+   SAT cannot decide the equivalence of two multiplier/divider circuits here, so in this unit the machine operations
+   * / % on unsigned operands are abstracted (in the lowered code and in the spec alike) as uninterpreted functions:
+   the code and the spec must apply them to the same normalised mantissas, and everything around them (special cases,
+   normalisation of subnormals, exponent arithmetic, guard/sticky rounding, overflow, gradual underflow) is decided
+   bit-precisely.  The only facts about the operations that are used are the stated range axioms, which hold for machine
+   arithmetic: for a, b in [2^10, 2^11): 2^20 <= a*b < 2^22; for N/D in [1,2)*2^11: 2^11 <= floor(N/D) < 2^12. */
+static inline unsigned xh_nm(unsigned h) { xh_u64 M = XH_M(h); return (unsigned)(M << (10 - xh_msb(M))); }     /* finite non-zero h: mantissa in [0x400, 0x7FF] */
+static inline int xh_ne(unsigned h) { return XH_E(h) - (10 - xh_msb(XH_M(h))); }
+#ifdef XV_UF_UNIT
+#define XH_P(x, y) XV_UMUL64((unsigned long)xh_nm(x), (unsigned long)xh_nm(y))
+static inline unsigned xh_spec_mul_uf(unsigned x, unsigned y)
+{
+  unsigned sign = (x ^ y) & 0x8000u;
+  if (XH_ISNAN(x) || XH_ISNAN(y))
+    return 0x7E00u;
+  if (XH_ISINF(x) || XH_ISINF(y))
+    return (XH_ISZERO(x) || XH_ISZERO(y)) ? 0x7E00u : (sign | 0x7C00u);
+  if (XH_ISZERO(x) || XH_ISZERO(y))
+    return sign;
+  return xh_round(sign, XH_P(x, y), xh_ne(x) + xh_ne(y), 0);
+}
+#define XH_MUL_AXIOM(x, y) ((XH_FINITE(x) && XH_FINITE(y) && !XH_ISZERO(x) && !XH_ISZERO(y)) ==> (XH_P(x, y) >= (1ul << 20) && XH_P(x, y) < (1ul << 22)))
+#define XV_CONTRACT_half_float__op_mul__half_half \
+  __CPROVER_ensures(XH_MUL_AXIOM(x.data_, y.data_) ==> XH_SAME(RVD, xh_spec_mul_uf(x.data_, y.data_))) __CPROVER_assigns()
+/* fused multiply-add: exact product-plus-addend as a 128-bit integer multiple of 2^emin, then one rounding */
+typedef unsigned __int128 xh_u128;
+typedef __int128 xh_i128;
+static inline int xh_msb128(xh_u128 v) { return (v >> 64) ? 64 + xh_msb((xh_u64)(v >> 64)) : xh_msb((xh_u64)v); }
+static inline unsigned xh_round128(unsigned sign, xh_u128 M, int E)
+{
+  int q = xh_msb128(M) + E;
+  if (q > 15)
+    return sign | 0x7C00u;
+  int ulp = q >= -14 ? q - 10 : -24, sh = ulp - E;
+  xh_u128 kept;
+  unsigned up = 0;
+  if (sh <= 0)
+    kept = M << (-sh);
+  else if (sh >= 127)
+    kept = 0;
+  else
+  {
+    xh_u128 rem = M & (((xh_u128)1 << sh) - 1), half_ = (xh_u128)1 << (sh - 1);
+    kept = M >> sh;
+    up = rem > half_ || (rem == half_ && (kept & 1));
+  }
+  unsigned r = q >= -14 ? (((unsigned)(q + 15) << 10) + ((unsigned)kept - 0x400u) + up) : ((unsigned)kept + up);
+  return sign | r;
+}
+static inline unsigned xh_spec_fma_uf(unsigned x, unsigned y, unsigned z)
+{
+  unsigned sign = (x ^ y) & 0x8000u;
+  if (XH_ISNAN(x) || XH_ISNAN(y) || XH_ISNAN(z))
+    return 0x7E00u;
+  if (XH_ISINF(x) || XH_ISINF(y))
+  {
+    if (XH_ISZERO(x) || XH_ISZERO(y))
+      return 0x7E00u;                                         /* inf * 0 */
+    return (XH_ISINF(z) && XH_SIGN(z) != sign) ? 0x7E00u : (sign | 0x7C00u);
+  }
+  if (XH_ISINF(z))
+    return z;
+  if (XH_ISZERO(x) || XH_ISZERO(y))
+    return XH_ISZERO(z) ? (sign & XH_SIGN(z)) : z;          /* (+-0) + z */
+  int ep = xh_ne(x) + xh_ne(y), ez = XH_E(z), emin = ep < ez ? ep : ez;
+  xh_i128 sp = (xh_i128)((xh_u128)XH_P(x, y) << (ep - emin)), sz = (xh_i128)((xh_u128)XH_M(z) << (ez - emin));
+  xh_i128 s = (sign ? -sp : sp) + (XH_SIGN(z) ? -sz : sz);
+  if (s == 0)
+    return 0;                                                 /* exact cancellation of non-zero terms: +0 */
+  return s < 0 ? xh_round128(0x8000u, (xh_u128)(-s), emin) : xh_round128(0, (xh_u128)s, emin);
+}
+#define XV_CONTRACT_half_float__fma__half_half_half XH_CASE \
+  __CPROVER_ensures(XH_MUL_AXIOM(x.data_, y.data_) ==> XH_SAME(RVD, xh_spec_fma_uf(x.data_, y.data_, z.data_))) __CPROVER_assigns()
+#define XH_DI(x, y) ((unsigned long)(xh_nm(x) < xh_nm(y)))
+#define XH_DN(x, y) ((unsigned long)xh_nm(x) << (12 + XH_DI(x, y)))
+#define XH_DD(x, y) ((unsigned long)xh_nm(y) << 1)
+#define XH_Q(x, y) XV_UDIV64(XH_DN(x, y), XH_DD(x, y))
+#define XH_R(x, y) XV_UMOD64(XH_DN(x, y), XH_DD(x, y))
+static inline unsigned xh_spec_div_uf(unsigned x, unsigned y)
+{
+  unsigned sign = (x ^ y) & 0x8000u;
+  if (XH_ISNAN(x) || XH_ISNAN(y))
+    return 0x7E00u;
+  if (XH_ISINF(x))
+    return XH_ISINF(y) ? 0x7E00u : (sign | 0x7C00u);
+  if (XH_ISINF(y))
+    return sign;
+  if (XH_ISZERO(y))
+    return XH_ISZERO(x) ? 0x7E00u : (sign | 0x7C00u);
+  if (XH_ISZERO(x))
+    return sign;
+  /* x / y = (N / D) * 2^(ex - ey - 12 - i + 1) with N = mx << (12 + i), D = my << 1, i = (mx < my) */
+  return xh_round(sign, XH_Q(x, y), xh_ne(x) - xh_ne(y) - 11 - (int)XH_DI(x, y), XH_R(x, y) != 0);
+}
+#define XH_DIV_AXIOM(x, y) ((XH_FINITE(x) && XH_FINITE(y) && !XH_ISZERO(x) && !XH_ISZERO(y)) ==> (XH_Q(x, y) >= (1ul << 11) && XH_Q(x, y) < (1ul << 12)))
+#define XV_CONTRACT_half_float__op_div__half_half \
+  __CPROVER_ensures(XH_DIV_AXIOM(x.data_, y.data_) ==> XH_SAME(RVD, xh_spec_div_uf(x.data_, y.data_))) __CPROVER_assigns()
+#endif
